@@ -1306,12 +1306,18 @@ namespace occa {
         skipToNewline();
         return;
       }
-      // Remove macro
+      // Remove macro from the map that owns it (predefined macros can be undefined too)
       const std::string &macroName = token->to<identifierToken>().value;
-      delete getMacro(macroName);
       macroMap::iterator it = sourceMacros.find(macroName);
       if (it != sourceMacros.end()) {
+        delete it->second;
         sourceMacros.erase(it);
+      } else {
+        it = compilerMacros.find(macroName);
+        if (it != compilerMacros.end()) {
+          delete it->second;
+          compilerMacros.erase(it);
+        }
       }
       delete token;
     }
